@@ -9,7 +9,7 @@ LEVEL = 'exploration'
 RULE = ('case = list of 0-8 (non-empty key, value) text pairs (alphabet rich in "=&+%; #" space, NUL, non-ASCII, repeated keys by '
         'drawing keys from a small per-case pool) + an encoding spelling per character (harness encoder: raw if unreserved, "+" or %20 '
         'for space, %XX upper/lower hex, optionally over-encoding unreserved characters) used as QUERY_STRING and as an '
-        'application/x-www-form-urlencoded POST body (Content-Length or chunked). Oracle: Request.query / Request.forms == expected map '
+        'application/x-www-form-urlencoded POST body (Content-Length or chunked; Content-Type with and without a charset parameter; every request is served twice on one application and the handler mutates what it got in between). Oracle: Request.query / Request.forms == expected map '
         '(single -> str, repeated -> list in submission order), Request.params == {**query, **forms}, parse_qsl() list mode == the pair list. '
         'Totality: parse_qsl(any text) and Request.query on any QUERY_STRING return without raising. Non-trivial = a repeated key, or a key/value '
         'containing one of "=&+%;" / space / non-ASCII / empty value; distinct by case hash.')
@@ -23,6 +23,11 @@ _special = st.sampled_from(list('=&+%; #?/\\"\'<>') + ['\0', '\r', '\n', 'é', '
 _tok = st.one_of(_special, st.text(max_size=4), st.sampled_from(['a', 'b', 'k', '1', 'key', 'x y']))
 TEXT = st.lists(_tok, max_size=5).map(''.join)
 KEY = TEXT.filter(lambda s: len(s) > 0) | st.sampled_from(['a', 'b', 'k'])
+
+
+CTYPES = ['application/x-www-form-urlencoded'] * 4 + ['application/x-www-form-urlencoded; charset=utf-8', 'application/x-www-form-urlencoded; charset=UTF-8',
+          'application/x-www-form-urlencoded; charset=ISO-8859-1', 'application/x-www-form-urlencoded;charset=latin1', 'application/x-www-form-urlencoded; charset=x-user-defined',
+          'application/x-www-form-urlencoded; charset="utf-8"', 'APPLICATION/X-WWW-FORM-URLENCODED', 'application/x-www-form-urlencoded; boundary=x', 'text/plain', '']
 
 
 def enc_text(s, style):
@@ -70,7 +75,8 @@ def case_st(draw):
     f = draw(st.lists(st.tuples(st.sampled_from(keys) | KEY, TEXT), max_size=6))
     style = draw(st.lists(st.integers(0, 83), min_size=1, max_size=7))
     return {'query': [list(p) for p in q], 'form': [list(p) for p in f], 'style': style,
-            'chunked': draw(st.booleans()), 'method': draw(st.sampled_from(['POST', 'PUT']))}
+            'chunked': draw(st.booleans()), 'method': draw(st.sampled_from(['POST', 'PUT'])),
+            'ctype': draw(st.sampled_from(CTYPES))}
 
 
 def _plain(d):
@@ -94,7 +100,8 @@ def check_case(ctx, case):
             raise CheckFailure(f'parse_qsl({s!r}) raised {fmt_exc(e)}')
         if got != list(pairs) or acc != list(pairs):
             raise CheckFailure(f'parse_qsl({s!r}) = {got!r} / append mode {acc!r}, sent pairs {pairs!r}')
-    # (2) through a request
+    # (2) through a request -- served twice on one application: what the handler got is mutated in place after the first
+    # request (lists sorted / extended, entries added), the identical second request must decode to the same pairs again
     app = ombott.Ombott()
     seen = {}
 
@@ -105,25 +112,35 @@ def check_case(ctx, case):
         seen['params'] = _plain(rq.params)
         seen['GET'] = _plain(rq.GET)
         seen['POST'] = _plain(rq.POST)
+        for d in (rq.query, rq.forms, rq.params):
+            for k, v in list(d.items()):
+                if isinstance(v, list):
+                    v.append('mutated-by-handler')
+                    v.reverse()
+            d['added-by-handler'] = 'x'
         return 'ok'
     app.route('/q', method=['POST', 'PUT'], callback=h)
-    headers = {'Content-Type': 'application/x-www-form-urlencoded'}
-    if case['chunked']:
-        from vlib.encoders import encode_chunked
-        wire, _ = encode_chunked(body, [7, 3, 50])
-        headers['Transfer-Encoding'] = 'chunked'
-        env = make_environ(case['method'], '/q', qs=qs, body=wire, content_length=None, headers=headers)
-    else:
-        env = make_environ(case['method'], '/q', qs=qs, body=body, headers=headers)
-    r = call_app(app, env)
-    if r.escaped is not None or r.code != 200:
-        raise CheckFailure(f'request with query {qs!r} and form body {body!r} answered {r.status!r} {r.errors[-500:]} '
-                           f'{fmt_exc(r.escaped) if r.escaped else ""}')
+    ctype = case.get('ctype', 'application/x-www-form-urlencoded')
+    headers = {'Content-Type': ctype} if ctype else {}
     eq, ef = expected_map(q), expected_map(f)
     want = {'query': eq, 'GET': eq, 'forms': ef, 'POST': ef, 'params': {**eq, **ef}}
-    for k, w in want.items():
-        if seen[k] != w:
-            raise CheckFailure(f'request.{k} differs for query {qs!r} / body {body!r}:\n got  {seen[k]!r}\n want {w!r}')
+    for reqno in (0, 1):
+        if case['chunked']:
+            from vlib.encoders import encode_chunked
+            wire, _ = encode_chunked(body, [7, 3, 50])
+            env = make_environ(case['method'], '/q', qs=qs, body=wire, content_length=None, headers=dict(headers, **{'Transfer-Encoding': 'chunked'}))
+        else:
+            env = make_environ(case['method'], '/q', qs=qs, body=body, headers=headers)
+        seen.clear()
+        r = call_app(app, env)
+        if r.escaped is not None or r.code != 200:
+            raise CheckFailure(f'request {reqno} with query {qs!r} and form body {body!r} (Content-Type {ctype!r}) answered {r.status!r} {r.errors[-500:]} '
+                               f'{fmt_exc(r.escaped) if r.escaped else ""}')
+        for k, w in want.items():
+            if seen[k] != w:
+                raise CheckFailure(f'request {reqno}: request.{k} differs for query {qs!r} / body {body!r} (Content-Type {ctype!r}):\n got  {seen[k]!r}\n want {w!r}')
+    if 'charset' in ctype.lower():
+        ctx.count('content_type_with_charset')
     allp = q + f
     keys = [k for k, _ in q], [k for k, _ in f]
     rep = any(len(set(ks)) < len(ks) for ks in keys)
